@@ -20,9 +20,16 @@ def models():
             a, b = sm.deref(args[0]), sm.deref(args[1])
             x, y = a.f[0], b.f[0]
             be = it.be
-            return Bool(be.slt(x.t, y.t, 64) if op == "lt" else be.sle(x.t, y.t, 64))
+            if op == "lt": return Bool(be.slt(x.t, y.t, 64))
+            if op == "le": return Bool(be.sle(x.t, y.t, 64))
+            if op == "gt": return Bool(be.slt(y.t, x.t, 64))
+            if op == "ge": return Bool(be.sle(y.t, x.t, 64))
+            if op == "eq": return Bool(x.t == y.t)
+            return Bool(x.t != y.t)
         return f
     return {r"<Token as PartialOrd>::lt$": tok_cmp("lt"), r"<Token as PartialOrd>::le$": tok_cmp("le"),
+            r"<Token as PartialOrd>::gt$": tok_cmp("gt"), r"<Token as PartialOrd>::ge$": tok_cmp("ge"),
+            r"<Token as PartialEq>::eq$": tok_cmp("eq"), r"<Token as PartialEq>::ne$": tok_cmp("ne"),
             r"partition_point::<": sm.m_partition_point, r"^<Vec<Tablet> as Deref>::deref$": sm.m_vec_deref,
             r"^Vec::<Tablet>::drain::<": sm.m_drain, r"^Vec::<Tablet>::insert$": sm.m_insert,
             r"core::slice::<impl \[Tablet\]>::get::<usize>$": sm.m_slice_get,
@@ -51,8 +58,9 @@ def run(tier, seed, only):
         except mir.Unsupported as e:
             ctx.add(name=f"smt:c15_translate_n{N}", engine="smt:mir2smt", status="inconclusive",
                     reason="translator rejected the current source: " + str(e), functions=FILE)
-    from . import smt_c15info
+    from . import smt_c15info, smt_c15maint
     smt_c15info.run(ctx, mf, tier)
+    smt_c15maint.run(ctx, mf, tier)
     return ctx.results
 
 
